@@ -227,6 +227,8 @@ func main() {
 		os.Exit(cmdCheck(os.Args[2:]))
 	case "sigs":
 		os.Exit(cmdSigs())
+	case "uncovered":
+		os.Exit(cmdUncovered())
 	case "dump":
 		os.Exit(cmdDump(os.Args[2:]))
 	default:
@@ -652,6 +654,36 @@ func cmdSigs() int {
 				names = append(names, prm.Name())
 			}
 			fmt.Printf("%s\t%s\t%s\n", pkg, k, strings.Join(names, ", "))
+		}
+	}
+	return 0
+}
+
+// cmdUncovered lists the functions of the verified packages that have a body and no contract (they are unfolded at
+// call sites when reached from a function under contract, and otherwise outside every check).
+func cmdUncovered() int {
+	p, err := loadProgram("verif")
+	if err != nil {
+		fmt.Fprintln(os.Stderr, err)
+		return 1
+	}
+	for _, pkg := range []string{pkgStun, pkgHmac} {
+		fns := p.functions(pkg)
+		var keys []string
+		for k, fn := range fns {
+			if fn.Blocks == nil || fn.Parent() != nil || fn.Synthetic != "" {
+				continue
+			}
+			if _, ok := p.cs[pkg].Funcs[k]; ok {
+				continue
+			}
+			keys = append(keys, k)
+		}
+		sort.Strings(keys)
+		for _, k := range keys {
+			fn := fns[k]
+			pos := p.fset.Position(fn.Pos())
+			fmt.Printf("%s\t%s:%d\n", k, filepath.Base(pos.Filename), pos.Line)
 		}
 	}
 	return 0
